@@ -20,8 +20,37 @@ func genC18Steps(r *Rng, stack []mwSpec, n int) []mwStep {
 		return &mocrelay.Event{ID: id, Pubkey: authors[0], CreatedAt: 5, Kind: 1, Tags: []mocrelay.Tag{}, Content: "c", Sig: sig128(1)}
 	}
 	var steps []mwStep
+	if r.P(20) {
+		// the window pattern of both unique filters, for the window size of the stack: an id, w-1 others, the id again
+		// (inside the window: suppressed, and it must count as seen again), one new id (evicts the oldest), the id a
+		// third time (still inside the window: suppressed) — on the receive side, the send side, or both interleaved
+		w := 2
+		for _, sp := range stack {
+			if sp.K == "recvUnique" || sp.K == "sendUnique" {
+				w = int(sp.N)
+			}
+		}
+		if w > 4 {
+			w = 4
+		}
+		seq := []string{ids[0]}
+		for k := 1; k < w; k++ {
+			seq = append(seq, ids[k])
+		}
+		seq = append(seq, ids[0], ids[w%len(ids)], ids[0])
+		side := r.Intn(3)
+		for _, id := range seq {
+			if side == 0 || (side == 2 && r.Bool()) {
+				steps = append(steps, mwStep{Dir: "c", C: &mocrelay.ClientEventMsg{Event: mk(id)}})
+			} else {
+				steps = append(steps, mwStep{Dir: "s", S: mocrelay.NewServerEventMsg(pick(r, subs), mk(id))})
+			}
+		}
+	}
 	for i := 0; i < n; i++ {
-		switch r.Intn(10) {
+		switch r.Intn(11) {
+		case 10:
+			steps = append(steps, mwStep{Dir: "s", S: mocrelay.NewServerEventMsg(pick(r, subs), mk(pick(r, ids)))})
 		case 0, 1, 2:
 			steps = append(steps, mwStep{Dir: "c", C: &mocrelay.ClientReqMsg{SubscriptionID: pick(r, subs), ReqFilters: []*mocrelay.ReqFilter{{}}}})
 		case 3, 4:
